@@ -6,9 +6,9 @@
    tokenised (argparse's job) and the text -> value conversion is a Section variable [conv]
    (conversion is the business of C02/C05; every theorem holds for every conversion).
 
-   The flag [pre] selects the code BEFORE the two repairs of round 2 (/repo 5bbebb1: _run_component popped
+   The flag [pre] selects the code BEFORE the three repairs (/repo 5bbebb1: _run_component popped
    "subcommand" for functions and "config" for every method; /repo 2f69862: a private Optional parameter without
-   default was skipped). [pre = false] is the code as it is now; the theorems are about it. [pre = true] is kept
+   default was skipped; /repo 4bb4764: "subcommand" was popped also for a class without methods). [pre = false] is the code as it is now; the theorems are about it. [pre = true] is kept
    only for the regression witnesses in Properties/C12.v.
 
    Outside the modelled space the model answers [Err EUnmodelled] — never a made-up result:
@@ -351,11 +351,15 @@ Definition run_component (pre : bool) (c : comp) (cf : cfg) : res (list call * r
           bind (kwargs_of cfg2) (fun kw => bind (py_call i kw) (fun b =>
           Ok ([([n; s__init__], b)], RetInstance)))
       | Some (CV v) =>
-          (* a class without methods: the key can only be the constructor's own parameter `subcommand`; it is
-             popped all the same, and when truthy taken for a method name: TypeError / AttributeError escapes *)
+          (* a class without methods: the key can only be the constructor's own parameter `subcommand`.
+             Before /repo 4bb4764 it was popped all the same and, when truthy, taken for a method name (TypeError /
+             AttributeError escapes); now "subcommand" is popped only for a class that has methods *)
           match ms with
-          | [] => if truthy v then Err ECrash
-                  else bind (kwargs_of cfg2) (fun kw => bind (py_call i kw) (fun b =>
+          | [] => if pre then
+                    if truthy v then Err ECrash
+                    else bind (kwargs_of cfg2) (fun kw => bind (py_call i kw) (fun b =>
+                         Ok ([([n; s__init__], b)], RetInstance)))
+                  else bind (kwargs_of cfg1) (fun kw => bind (py_call i kw) (fun b =>
                        Ok ([([n; s__init__], b)], RetInstance)))
           | _ =>
           match v with
@@ -518,8 +522,8 @@ Definition no_private_optional_without_default (cs : components) : bool :=
   | Dct kids => forallb (fun kc => guard2_comp (snd kc)) kids
   end.
 
-(* ---- the guards of the theorem about the present code = the finding classes of the correspondence judge ---- *)
-(* A: no class whose constructor has a parameter called `subcommand` *)
+(* ---- A: guard of round 3 (repaired in /repo 4bb4764; kept for the regression witness):
+        no class whose constructor has a parameter called `subcommand` *)
 Fixpoint guardA_comp (c : comp) : bool :=
   match c with
   | CFn _ _ => true
@@ -536,7 +540,8 @@ Definition no_class_subcommand_param (cs : components) : bool :=
   | Dct kids => forallb (fun kc => guardA_comp (snd kc)) kids
   end.
 
-(* B: no Optional parameter whose default is a string that YAML reads as null *)
+(* ---- the guard of the theorem about the present code = the finding class of the correspondence judge ----
+   B: no Optional parameter whose default is a string that YAML reads as null *)
 Definition nullish_default (p : param) : bool :=
   match p_ty p, p_default p with
   | TOpt _, Some (VStr s) => nullish s
